@@ -219,11 +219,34 @@ def gen_opts(rng):
     return o, argv
 
 
+def boundary_case(rng):
+    """two nested objects whose shared-key ratio is exactly N/100, with `--merge percent_N`: the documented mapping is
+    ModelFieldsPercentMatch(float(N) / 100)"""
+    from math import gcd
+    n = rng.choice([35, 41, 47, 50, 57, 60, 69, 70, 75, 80, 82, 83, 90, 94, 95])
+    g = gcd(n, 100)
+    union, inter = 100 // g, n // g
+    if union > 25:
+        union, inter = 20, round(n / 5)            # nearest twentieth: still a near-boundary case
+    a = {"k%d" % i: i for i in range(union)}
+    b = {"k%d" % i: i for i in range(inter)}
+    sample = {"first": a, "second": b}
+    return [sample], {"merge": ["percent_%d" % n]}, ["--merge", "percent_%d" % n]
+
+
 def falsify(ctx):
     rng = ctx.rng("fals")
     n = ctx.n(90, 1800)
     with tempfile.TemporaryDirectory(prefix="j2m-c16-") as root:
         jobs, metas = [], []
+        for i in range(ctx.n(16, 120)):
+            d = os.path.join(root, "b%d" % i)
+            os.makedirs(d)
+            samples, opts, oargv = boundary_case(rng)
+            clitools.write_files(d, {"b.json": samples})
+            full = ["-m", "Root", "b.json"] + oargv
+            jobs.append((full, d, ctx.repo))
+            metas.append((samples, {"b.json": samples}, full, opts, False, "boundary", d))
         for i in range(n):
             d = os.path.join(root, "c%d" % i)
             os.makedirs(d)
